@@ -4,7 +4,7 @@ From qemu docs/interop/parallels.txt and prl-xml.txt (struct only).
 
 HDS spec = {
   "version": 1 | 2, "cluster_sectors": int, "size_sectors": int, "bat_entries": int (>= clusters),
-  "first_block_offset": int (sectors), "in_use": bool,
+  "first_block_offset": int (sectors), "first_block_field": int (header value if different, e.g. 0 in the legacy layout), "in_use": bool,
   "alloc": [[cluster, file_sector], ...]   file_sector: absolute sector of the cluster's data in the file
                                             (v2 requires file_sector % cluster_sectors == 0)
   "layer": int,
@@ -44,7 +44,7 @@ def header_bytes(spec: dict) -> bytes:
         sig
         + struct.pack("<IIIII", 2, 16, spec.get("cylinders", 1), spec["cluster_sectors"], spec["bat_entries"])
         + size_field
-        + struct.pack("<IIIQ", IN_USE if spec.get("in_use") else 0, spec["first_block_offset"], 0, 0)
+        + struct.pack("<IIIQ", IN_USE if spec.get("in_use") else 0, spec.get("first_block_field", spec["first_block_offset"]), 0, 0)
     )
 
 
@@ -82,7 +82,7 @@ def build(spec: dict):
             lay.put(cl * csz, Pat(k, ln))
         end = max(end, fsec * SECTOR + csz)
     fh.grow(max(end, spec["first_block_offset"] * SECTOR))
-    meta = {"size": size, "cluster_size": csz, "data_offset": spec["first_block_offset"], "in_use": bool(spec.get("in_use")),
+    meta = {"size": size, "cluster_size": csz, "data_offset": spec.get("first_block_field", spec["first_block_offset"]), "in_use": bool(spec.get("in_use")),
             "metadata_bytes": 64 + 4 * n}
     return fh, lay, meta
 
